@@ -373,7 +373,7 @@ def build_world_and_probes(rng, blocks, headers, unsized=False, nprobes=6, impl_
 def gen_targs_case(rng, variant=None):
     """traits with lifetime / type / const parameters (bounds, defaults, ?Sized): blocks for
     generic and for concrete instantiations, families per instantiation"""
-    variant = variant or rng.choice(['generic', 'concrete', 'lifetime', 'const', 'bounded', 'unsized_arg', 'mixed', 'default_omitted', 'nested_unsized', 'unsized_where', 'unsized_nested_arg', 'nested_arg', 'reflexive_mix'])
+    variant = variant or rng.choice(['generic', 'concrete', 'lifetime', 'const', 'bounded', 'unsized_arg', 'mixed', 'default_omitted', 'nested_unsized', 'unsized_where', 'unsized_nested_arg', 'nested_arg', 'reflexive_mix', 'bounded_composite'])
     tr = rng.choice(['D', 'D2'])
     trait_where = ''
     def fam(trait_args, self_fmt, used, groups, tag0, extra_bounds=(), relaxed=None):
@@ -419,6 +419,13 @@ def gen_targs_case(rng, variant=None):
         tg = '<P: ?Sized>'
         blocks = fam('{T1}', '{T0}', ['T0', 'T1'], rng.sample(GROUPS, 2), 0, relaxed={'T1': rng.choice(['inline', 'where'])})
         targs_pool = ['X0', 'str', '[u8]']
+    elif variant == 'bounded_composite':
+        # a bounded trait parameter given a type built from a parameter of the block
+        tg = rng.choice(['<P: Tr0>', '<P: ?Sized + Tr0>'])
+        wrap = rng.choice(['Vec<{T1}>', 'Box<{T1}>', '({T1},)'])
+        blocks = fam(wrap, '{T0}', ['T0', 'T1'], rng.sample(GROUPS, 2), 0, extra_bounds=[(wrap, 'Tr0', {})])
+        extra_world = 'impl Tr0 for %s {}\n' % wrap.format(T1='X0')
+        targs_pool = [wrap.format(T1='X0')]
     elif variant == 'unsized_where':
         # ?Sized declared inline on the trait parameter, and a where-clause on the same parameter
         # in the trait definition (the where predicate comes first in the generated main impl)
